@@ -23,7 +23,8 @@ EXPLANATION = (
     "(SOC: z0 - |z[1..]| over the whole tail)."
     " (R11) backtrack_search returns zero (only below the floor) or the alpha whose trial point has just passed the membership test - no untested exit."
     " (R12) nonnegative-cone ratio test: component i limits the step iff its direction is < 0 exactly (no tolerance, no <=), by -z_i/dz_i; same for s."
-    " (R13) the quadratic root of the second-order cone step length is formed without cancellation (t = -b - sqrt(d) iff b >= 0).")
+    " (R13) the quadratic root of the second-order cone step length is formed without cancellation (t = -b - sqrt(d) iff b >= 0)."
+    ' R11 also: zero is returned only after at least one trial point failed the membership test (the requested step itself is always tried).')
 ASSUMPTIONS = [
     'rustc MIR construction and trait resolution are correct',
     'alpha_max >= 0; 0 <= linesearch_backtrack_step <= 1 (settings are not validated by the crate)',
